@@ -180,13 +180,14 @@ class Site:
     which only `cond_h` is known.  Universal statements quantify over them; existential statements
     (membership) must hold for every value satisfying cond_h."""
 
-    def __init__(self, label, bvars, cond, elem, hvars=(), cond_h=None):
+    def __init__(self, label, bvars, cond, elem, hvars=(), cond_h=None, cond_d=None):
         self.label = label
         self.bvars = list(bvars)      # z3 constants bound at this site (loop variables)
-        self.cond = cond              # z3 Bool over bvars + free symbols
+        self.cond = cond              # decisions (loop ranges, branch conditions) over bvars + free symbols
         self.elem = elem              # Value over bvars + hvars + free symbols
         self.hvars = list(hvars)
-        self.cond_h = cond_h if cond_h is not None else z3.BoolVal(True)
+        self.cond_h = cond_h if cond_h is not None else z3.BoolVal(True)   # knowledge about computed values
+        self.cond_d = cond_d if cond_d is not None else z3.BoolVal(True)   # decisions that depend on computed values
 
     def rename(self, ctx):
         """A copy with fresh bound variables (alpha-renaming)."""
@@ -195,10 +196,20 @@ class Site:
         sub = list(zip(allv, fresh))
         nb = len(self.bvars)
         return Site(self.label, fresh[:nb], z3.substitute(self.cond, *sub) if sub else self.cond,
-                    vsubst(self.elem, sub), fresh[nb:], z3.substitute(self.cond_h, *sub) if sub else self.cond_h)
+                    vsubst(self.elem, sub), fresh[nb:], z3.substitute(self.cond_h, *sub) if sub else self.cond_h,
+                    z3.substitute(self.cond_d, *sub) if sub else self.cond_d)
 
     def full_cond(self):
-        return z3.And(self.cond, self.cond_h)
+        return z3.And(self.cond, self.cond_h, self.cond_d)
+
+    def exists_body(self, goal):
+        """formula (over bvars) saying: this instance is generated and `goal` holds for the values the code computes"""
+        inner = z3.And(self.cond_d, goal)
+        if not (z3.is_true(z3.simplify(self.cond_h)) and not self.hvars):
+            inner = z3.Implies(self.cond_h, inner)
+        if self.hvars:
+            inner = z3.ForAll(self.hvars, inner)
+        return z3.And(self.cond, inner)
 
     def all_vars(self):
         return self.bvars + self.hvars
